@@ -3,8 +3,10 @@ import json, os, sys, time, random, re, shutil, hashlib
 from . import tlc, drv, build
 
 VERIF = build.VERIF
-EVID = os.path.join(VERIF, "evidence")
-REPLAYS = os.path.join(VERIF, "replays")
+# VERIF_OUT: evaluation runs against a scratch copy of the repository (tools/seed_matrix.py --scratch) write their
+# evidence / replay files there instead of overwriting the committed evidence of /repo
+EVID = os.path.join(os.environ.get("VERIF_OUT", VERIF), "evidence")
+REPLAYS = os.path.join(os.environ.get("VERIF_OUT", VERIF), "replays")
 KNOWN = os.path.join(VERIF, "known_findings.txt")
 TMP = os.environ.get("VERIF_TMP", "/tmp")
 
